@@ -69,7 +69,7 @@ def poke_histories(h, i, share):
 
 def run(ctx):
     rng = ctx.rng
-    n = ctx.n(420, 2800)
+    n = ctx.n(330, 2600)
     histories = CORPUS + [G.history_c10(rng) for _ in range(n)]
     n = len(histories)
     want = ("read", "build", "edit", "write")
@@ -114,6 +114,7 @@ def run(ctx):
             except Exception:  # noqa
                 pass
             res["violations"].append(violation_record(h, i, clause, extra))
+    C.detail_summary(histories, r["details"], res)
     for (hi, d) in r["disagreements"][:40]:
         res["disagreements"].append({"history": histories[hi], "op_index": d["i"], "what": d["what"],
                                      "model": d.get("model"), "impl": d.get("impl")})
